@@ -423,6 +423,11 @@ Check mmap_vec_open_total :
   forall f, nlen f < 2 ^ 60 ->
     good (fun '(len, _) => 80 + len * 8 <= nlen f) (2 * nlen f) (mv_open_o f).
 Print Assumptions mmap_vec_open_total.
+Example mmap_vec_open_nontrivial :
+  mv_cell ([67; 69; 86; 95; 80; 65; 77; 77; 1; 0; 0; 0; 8; 0; 0; 0; 1; 0; 0; 0; 0; 0; 0; 0; 2; 0; 0; 0; 0; 0; 0; 0]
+           ++ repeat 0 48 ++ [7; 0; 0; 0; 0; 0; 0; 0] ++ repeat 0 8)
+  = Ok [1; 7; -1; 7; 7; 7]%Z 192.
+Proof. vm_compute. reflexivity. Qed.
 
 (* ZReorderMap::open (the C19 model ro_parse with the outcome layer): no panic, nothing reserved, and an
    opened map has no empty run and runs that sum to exactly `size` - the iterator's `seq_length -= 1`
